@@ -212,4 +212,4 @@ Definition check_case (c : case) : list string :=
   end.
 
 Definition check_all (cs : list (Z * case)) : list (Z * string) :=
-  flat_map (fun ic => map (fun t => (fst ic, t)) (check_case (snd ic))) cs.
+  flat_map (fun ic => map (fun t => (fst ic, t)) (nodup string_dec (check_case (snd ic)))) cs.
